@@ -16,17 +16,14 @@ structure NextRes where
 section
 variable (H : Alg → Bytes → Bytes)
 
-/-- the gzip oracle seen from a position further into the stream -/
-def Oracles.shift (Ω : Oracles) (base : Nat) : Oracles := { Ω with gz := fun k => Ω.gz (k + base) }
-
 def readLoop (o : Opts) (Ω : Oracles) : Nat → Nat → Stream → List NextRes
   | 0, _, _ => []
   | fuel + 1, base, s =>
-    match (unmarshal H o (Ω.shift base) s).err with
-    | some e => [⟨base + (unmarshal H o (Ω.shift base) s).offset, (unmarshal H o (Ω.shift base) s).record, (unmarshal H o (Ω.shift base) s).fnd, some e⟩]
+    match (unmarshal H o Ω s).err with
+    | some e => [⟨base + (unmarshal H o Ω s).offset, (unmarshal H o Ω s).record, (unmarshal H o Ω s).fnd, some e⟩]
     | none =>
-      ⟨base + (unmarshal H o (Ω.shift base) s).offset, (unmarshal H o (Ω.shift base) s).record, (unmarshal H o (Ω.shift base) s).fnd, none⟩ ::
-        readLoop o Ω fuel (base + (s.rest.length - (unmarshal H o (Ω.shift base) s).rest.length)) ⟨(unmarshal H o (Ω.shift base) s).rest, s.fault⟩
+      ⟨base + (unmarshal H o Ω s).offset, (unmarshal H o Ω s).record, (unmarshal H o Ω s).fnd, none⟩ ::
+        readLoop o Ω fuel (base + (s.rest.length - (unmarshal H o Ω s).rest.length)) ⟨(unmarshal H o Ω s).rest, s.fault⟩
 
 /-- read a whole stream from its start -/
 def readAllRecs (o : Opts) (Ω : Oracles) (data : Bytes) : List NextRes := readLoop H o Ω (data.length + 2) 0 ⟨data, false⟩
